@@ -202,7 +202,8 @@ pub fn gen_len(r: &mut Rng, allow_big: bool) -> usize {
 const MULTI: [&str; 16] = ["é", "ß", "Ж", "中", "日本", "𝄞", "😀", "\u{0}", ".", "\"", "\\", "\u{7f}", "\u{fffd}", "\\/", "\n", "\u{1b}"];
 
 /// strings that look like something else: JSON text, key-serialisation (PASERK) prefixes, tokens
-pub const LOOKALIKES: [&str; 26] = [
+pub const LOOKALIKES: [&str; 30] = [
+    "a==", "QUJD=", "=", "x=y=",
     "^https?:\\/\\/x", "a\\/b", "\\/", "<\\/script>",
     "{}", "[]", "[1,2,3]", "{\"a\":1}", "{\"data\":\"x\"}", "null", "true", "123", "\"q\"", "[\"a\",\"b\"]", " {}", "{} ",
     "k4.local-wrap.pie.AAAAAAAAAAAAAAAAAAAAAAAAAAAAAAAAAAAAAAAAAAAAAAAA", "k4.secret-wrap.pie.AAAA", "k2.localisation", "k4.public.AAAAAAAAAAAAAAAAAAAAAAAAAAAAAAAAAAAAAAAAAAA",
@@ -317,6 +318,11 @@ pub fn gen_json(r: &mut Rng, depth: u32) -> Value {
             let l = gen_len(r, false).min(40);
             Value::String(text!(r, l))
         }
+        6 if r.chance(1, 8) => {
+            // a longer array of small non-negative integers (what a byte string looks like as JSON)
+            let n = *r.pick(&[15usize, 16, 17, 32, 64]);
+            Value::Array((0..n).map(|_| json!(r.below(256))).collect())
+        }
         6 => {
             let n = r.usize(4);
             Value::Array((0..n).map(|_| gen_json(r, depth - 1)).collect())
@@ -381,6 +387,7 @@ pub fn gen_native(r: &mut Rng) -> NativeVal {
         5 => NativeVal::Bool(r.chance(1, 2)),
         6 => NativeVal::Str(text!(r, r.usize(20))),
         7 => NativeVal::OptStr(if r.chance(1, 2) { None } else { Some(text!(r, r.usize(10))) }),
+        8 if r.chance(1, 4) => NativeVal::VecI64((0..*r.pick(&[16usize, 20, 32])).map(|_| r.below(256) as i64).collect()),
         8 => NativeVal::VecI64((0..r.usize(5)).map(|_| r.range(-1000, 1000) as i64).collect()),
         9 => NativeVal::VecStr((0..r.usize(4)).map(|_| text!(r, r.usize(6))).collect()),
         10 => NativeVal::Unit,
